@@ -239,6 +239,13 @@ func spaceAfterToken(subject, before, after *Token) bool {
 		// Don't split namespace segments in a function call
 		return false
 
+	case subject.Type == hclsyntax.TokenNumberLit && after.Type == hclsyntax.TokenDot && before.Type != hclsyntax.TokenDot:
+		// A dot directly after a number literal would be scanned as part of
+		// the number if digits follow it ("0 .1" is not "0.1"), so the space
+		// stays. (A number that is itself a legacy index, as in foo.0.bar,
+		// is preceded by a dot and is not affected.)
+		return true
+
 	case subject.Type == hclsyntax.TokenDot || after.Type == hclsyntax.TokenDot:
 		// Don't use spaces around attribute access dots
 		return false
